@@ -17,8 +17,8 @@ impl Variant {
 
         if (slen >= 5 && !s.is_ascii_alphanumeric())
             || (slen == 4
-                && !v[0].is_ascii_digit()
-                && v[1..].iter().any(|c: &u8| !c.is_ascii_alphanumeric()))
+                && (!v[0].is_ascii_digit()
+                    || v[1..].iter().any(|c: &u8| !c.is_ascii_alphanumeric())))
         {
             return Err(ParserError::InvalidSubtag);
         }
